@@ -442,6 +442,12 @@ func init() {
 					c.Note([]byte(fmt.Sprintf("z=%d polygon=%v", z, pg)))
 					var cover maptile.Set
 					var err error
+					if r.P(1, 8) {
+						// an unsuccessful call first (a ring that is not closed is reported as an error): it must not affect the next one
+						open3 := orb.Ring{pg[0][0], pg[0][1], pg[0][2]}
+						h.Catch(func() { tilecover.Ring(open3, zoom) })
+						c.Count("covers_after_an_unsuccessful_call", 1)
+					}
 					if pv, st := h.Catch(func() { cover, err = tilecover.Polygon(pg.Clone(), zoom) }); pv != nil {
 						c.Fail("", "tilecover.Polygon panicked", map[string]interface{}{"zoom": z, "polygon": sv(pg), "panic": sv(pv), "stack": st})
 						return
@@ -559,15 +565,42 @@ func init() {
 						return
 					}
 					target := maptile.Zoom(r.Intn(int(zc) + 1))
+					// (a key whose value is false is not a member: some clones carry a few such keys next to real members)
+					var ghosts []maptile.Tile
+					if r.P(1, 4) {
+						keys := make([]maptile.Tile, 0, len(in))
+						for t := range in {
+							keys = append(keys, t)
+						}
+						sort.Slice(keys, func(i, j int) bool {
+							return keys[i].X < keys[j].X || (keys[i].X == keys[j].X && keys[i].Y < keys[j].Y)
+						})
+						for _, t := range keys {
+							for _, s := range t.Siblings() {
+								if !in[s] && r.P(1, 3) {
+									ghosts = append(ghosts, s)
+								}
+							}
+							if len(ghosts) > 6 {
+								break
+							}
+						}
+						sort.Slice(ghosts, func(i, j int) bool {
+							return ghosts[i].X < ghosts[j].X || (ghosts[i].X == ghosts[j].X && ghosts[i].Y < ghosts[j].Y)
+						})
+					}
 					clone := func() maptile.Set {
 						o := make(maptile.Set, len(in))
 						for t := range in {
 							o[t] = true
 						}
+						for _, t := range ghosts {
+							o[t] = false
+						}
 						return o
 					}
 					d := func(out maptile.Set) map[string]interface{} {
-						return map[string]interface{}{"input": setString(in), "cover_zoom": zc, "target_zoom": target, "output": setString(out)}
+						return map[string]interface{}{"input": setString(in), "false_valued_keys": fmt.Sprint(ghosts), "cover_zoom": zc, "target_zoom": target, "output": setString(out)}
 					}
 					check := func(out maptile.Set, strict bool, name string) bool {
 						out = trueTiles(out)
